@@ -19,6 +19,15 @@ Theorem C10_pderiv_is_formal_derivative :
 Proof. exact pderiv_coeff. Qed.
 Print Assumptions C10_pderiv_is_formal_derivative.
 
+(* ... and the derivative in the analytic sense: first-order Taylor expansion with a
+   polynomial remainder, P(x+h) = P(x) + h P'(x) + h^2 T(x,h) *)
+Theorem C10_pderiv_taylor :
+  forall (R : cring) (P : list R) (x h : R),
+    peval P (radd x h)
+    = radd (radd (peval P x) (rmul h (peval (pderiv P) x))) (rmul (rmul h h) (ptay P x h)).
+Proof. exact pderiv_taylor. Qed.
+Print Assumptions C10_pderiv_taylor.
+
 (* product rule in one line: a polynomial evaluated at x + eps is (P(x), P'(x)) *)
 Theorem C10_eval_at_dual_number :
   forall (R : cring) (P : list R) (x : R),
